@@ -279,6 +279,14 @@ def leaf_atoms(e, polarity, out):
         elif polarity and e[3] == ("c", 0):
             leaf_atoms(e[1], True, out)
             leaf_atoms(e[2], True, out)
+        elif polarity and e[2] == ("c", 0):
+            # select c, 0, x == !c && x
+            leaf_atoms(e[1], False, out)
+            leaf_atoms(e[3], True, out)
+        elif not polarity and e[3][0] == "c" and e[3][1] != 0:
+            # select c, x, K!=0 == !c || x
+            leaf_atoms(e[1], True, out)
+            leaf_atoms(e[2], False, out)
         return
 
 
